@@ -432,7 +432,12 @@ def gen_solid_input(rng):
         case = {'solid': sp, 'rigid': rigid.to_json(), 'tol': rng.choice([1e-3, 1e-2]),
                 'removed': [], 'dups': [], 'closed': True, 'site': 'Polyface3D.from_faces',
                 'variant': 'closed', 'pres': C7.random_presentation(rng, solid)}
-        return {'kind': 'solid', 'label': sp['kind'] + '/' + sp['base_kind'], 'case': case}
+        # the factories pre-build their faces (with their own planes): containment must hold for
+        # solids made by them as well
+        if sp['kind'] == 'prism' and sp['base_kind'] == 'box' and rng.random() < 0.7:
+            case.update({'site': 'Polyface3D.from_box', 'pres': []})
+        return {'kind': 'solid', 'label': sp['kind'] + '/' + sp['base_kind'] + '/' +
+                case['site'].split('.')[-1], 'case': case}
     return None
 
 
@@ -536,8 +541,14 @@ def judge_solid(inp, queries, ans, stats):
         stats[k] = stats.get(k, 0) + 1
     try:
         wverts = [H.fl3(rigid.apply(v)) for v in solid.mverts]
-        faces = C7.build_faces(case, solid, wverts)
-        pf = Polyface3D.from_faces(faces, case['tol'])
+        if case['site'] == 'Polyface3D.from_box':
+            ex, _rq = C7.execute_polyface(case)
+            if _rq is None:
+                raise RuntimeError(ex[0]['what'])
+            pf = ex['pf']
+        else:
+            faces = C7.build_faces(case, solid, wverts)
+            pf = Polyface3D.from_faces(faces, case['tol'])
         pfaces = pf.faces
         solid_flag = pf.is_solid
     except Exception as e:      # noqa: E722
